@@ -137,6 +137,18 @@ def run(sc, workdir):
             ckey = "" if key == "" else (pos[key].id if key in pos else "nosuchpar")
             cnames = [newids[int(n[1:]) - 1] if n.startswith("n") and int(n[1:]) <= len(newids) else n for n in names]
             ia[ckey] = ",".join([x for x in ([ia[ckey]] if ckey in ia else []) + cnames])
+    # oriented bases: the last view angle is a legal key too - new parameters then follow the orientation block of
+    # the derived table (a key inside the block is refused: "phi must follow theta")
+    angles = [p.id for p in kpars if p.type == "orientation"][-1:]
+    if angles and rng.random() < 0.4:
+        if ia is None:
+            ia = {rng.choice(angles): ",".join(newids)}
+        else:
+            good = [k for k in ia if k not in ("nosuchpar",)]
+            if good:
+                k = rng.choice(good)
+                ia[rng.choice(angles)] = ia.pop(k)
+    if ia is not None:
         ia_ev = [[k, val.split(",")] for k, val in ia.items()]
     name = "vr%d" % tid
     dev = {"tid": tid, "ev": "Derive", "trace": "reparam", "base": base_ids, "new": newids,
